@@ -742,6 +742,31 @@ theorem dev_collist_length_mismatch :
        (.col "<default>.s.c" (some (.table "<default>" "s")), .col "<default>.t.b" (some (.table "<default>" "t")))] := by
   decide +kernel
 
+/-- D6 (recorded finding) end to end — why every item of the FIRST branch must have a source (`fragStmtSetop`):
+    `insert into t select 1 as a, x as b from s union all select p, q from u`.  The literal creates no write column, the
+    second branch finds ONE write column for its TWO items, wires `p` by its own name — which makes two write columns —
+    and then `q` by position to `write_columns[1] = t.p`.  The specification (position onto the first branch's names) says
+    `p → a`, `q → b`. -/
+def exD6 : Stmt :=
+  .insert .insertInto false ["t"] none
+    (.setop
+      (.mk (.select false [.mk (.lit "1") (some "a") true, .mk (.col [] "x") (some "b") true]
+        [.mk (.table ["s"] none false) []] none [] none) false)
+      [.mk "union all" (.mk (.select false [.mk (.col [] "p") none false, .mk (.col [] "q") none false]
+        [.mk (.table ["u"] none false) []] none [] none) false)]) false
+
+theorem dev_D6_end_to_end :
+    fragStmtSetop {} exD6 = false ∧
+    lineageEdges (analyze {} false exD6) =
+      [(.col "<default>.s.x" (some (.table "<default>" "s")), .col "<default>.t.b" (some (.table "<default>" "t"))),
+       (.col "<default>.u.p" (some (.table "<default>" "u")), .col "<default>.t.p" (some (.table "<default>" "t"))),
+       (.col "<default>.u.q" (some (.table "<default>" "u")), .col "<default>.t.p" (some (.table "<default>" "t")))] ∧
+    specPairsUnion {} (stmtTarget exD6) (stmtParts exD6) =
+      [(.col "<default>.s.x" (some (.table "<default>" "s")), .col "<default>.t.b" (some (.table "<default>" "t"))),
+       (.col "<default>.u.p" (some (.table "<default>" "u")), .col "<default>.t.a" (some (.table "<default>" "t"))),
+       (.col "<default>.u.q" (some (.table "<default>" "u")), .col "<default>.t.b" (some (.table "<default>" "t")))] := by
+  decide +kernel
+
 /-- the theorem instantiated: whatever graph the analysis of `exInsert` returns, its LINEAGE edges are these three pairs -/
 example (g : LGraph) (h : analyze {} false exInsert = .ok g) (u v : Node) :
     ((u, v) ∈ g.edges ∧ g.ety u v = some .lineage) ↔
